@@ -15,7 +15,7 @@ import (
 
 // AccStep: "acc" accumulates predictions P against targets T (equal lengths; Bad == -1: one
 // tensor object serves as both); "bad" is an invalid call (Bad: 1 nil prediction, 2 nil target,
-// 3 rank-0 inputs, 4 rank-2 inputs, 5 mismatched lengths, 6 / 7 one rank-2 / rank-0 tensor
+// 3 rank-0 inputs, 4 rank-2 inputs, 9 a target that is a foreign implementation of the Tensor interface, 5 mismatched lengths, 6 / 7 one rank-2 / rank-0 tensor
 // object as both operands, 8 prediction of shape PS and target of shape TS, all ones, where
 // not both are rank-1 of one length); "result" reads Result().
 type AccStep struct {
@@ -66,7 +66,14 @@ type C19Case struct {
 	// Quiet: Result is not read between the steps (explicit "result" steps are skipped too),
 	// only once at the end
 	Quiet bool `json:"quiet,omitempty"`
+	// Zero: the checked object is a zero-value struct (&metrics.Accuracy{}, new, var) instead
+	// of the constructor's result
+	Zero int `json:"zero,omitempty"`
 }
+
+// foreignTarget is a Tensor implementation of the harness (it wraps a library tensor): the
+// library's operations reject it.
+type foreignTarget struct{ tensor.Tensor }
 
 func init() { register("C19/accuracy", checkC19) }
 
@@ -108,7 +115,7 @@ func genC19(t *rapid.T) C19Case {
 			c.Steps = append(c.Steps, st)
 		case k <= 7:
 			m := rapid.IntRange(1, 4).Draw(t, "badlen")
-			st := AccStep{Kind: "bad", Bad: rapid.IntRange(1, 8).Draw(t, "bad"), P: make([]float64, m), T: make([]float64, m)}
+			st := AccStep{Kind: "bad", Bad: rapid.IntRange(1, 9).Draw(t, "bad"), P: make([]float64, m), T: make([]float64, m)}
 			for j := 0; j < m; j++ {
 				st.P[j], st.T[j] = 1, 1 // would all match if they were counted
 			}
@@ -131,6 +138,9 @@ func genC19(t *rapid.T) C19Case {
 		c.Other = rapid.IntRange(1, 2).Draw(t, "otherwhen")
 	}
 	c.Quiet = rapid.IntRange(0, 2).Draw(t, "quiet") == 0
+	if rapid.IntRange(0, 5).Draw(t, "zerovalue") == 0 {
+		c.Zero = rapid.IntRange(1, 3).Draw(t, "zeroform")
+	}
 	for pos := 0; pos < total; {
 		pos += rapid.IntRange(1, 9).Draw(t, "cut")
 		c.Cuts = append(c.Cuts, pos)
@@ -146,6 +156,18 @@ func checkC19(c C19Case) *Failure {
 		other = metrics.NewAccuracy()
 	}
 	acc := metrics.NewAccuracy()
+	switch c.Zero {
+	case 1:
+		acc = &metrics.Accuracy{}
+	case 2:
+		acc = new(metrics.Accuracy)
+	case 3:
+		var zv metrics.Accuracy
+		acc = &zv
+	}
+	if c.Zero > 0 {
+		evid.Class("C19.zero_value_struct")
+	}
 	if c.Other == 2 {
 		other = metrics.NewAccuracy()
 	}
@@ -238,6 +260,8 @@ func checkC19(c C19Case) *Failure {
 			case 7: // one rank-0 tensor object as both operands
 				p = lib.MustNew(nil, []float64{1}, false)
 				t = p
+			case 9: // a target that is another implementation of the Tensor interface
+				t = foreignTarget{t}
 			case 8:
 				if !ref.ValidDims(st.PS) || !ref.ValidDims(st.TS) || ref.Prod(st.PS) > 4096 || ref.Prod(st.TS) > 4096 ||
 					(len(st.PS) == 1 && len(st.TS) == 1 && st.PS[0] == st.TS[0]) {
